@@ -49,6 +49,14 @@ CLAIMS = {
                 "(prefix vs full history; -t D vs truncated history) compared with each other and with the model.",
         "note": "to-date equivalence needs local dates monotone in time (finding F9); refinement model = spec is proved separately.",
         "technique": "Coq proof + metamorphic differential correspondence", "design_ref": "6 C09"},
+    "C11": {
+        "text": "Proved for all inputs in the Coq model: for every configuration and every sheet rendered from typed source rows under any injective column map (all mandatory fields mapped, first cell of every data row non-empty and not a keyword), any junk in unmapped columns, distinct tables in any order, any number of blank rows between tables, parse_sheet cfg asset counter (render_sheet ...) = Ok (expected ...). Every field is read from its assigned column; each set's row ids are exactly the table's data-row numbers in sheet order; numbers are the half-even rounding of the cell's double to 11 decimals (|error| <= 5e-12, exact for doubles within 5e-12 of an 11-decimal value); empty optionals default as documented; a crypto fee on an acquisition becomes the acquisition plus an artificial FEE disposal at the same instant/account, coin flow crypto_in - fee, cost basis unchanged.",
+        "note": "Model tied to the source by translator fragment 'parser' (format precision, TABLE END, table keywords, constructor parameter order / mandatory / RP2Decimal-typed lists, _HEADER_COLUMNS) and by a correspondence run on real .ini/.ods files: implementation = extracted model = independent Python oracle, field by field incl. unique_id/notes, artificial ids and the cross-sheet id counter. binary64 rounding is not modelled (C11_num11_exact_double_partial takes the half-ulp distance as hypothesis; the check validates it on every generated value). dateutil, ezodf cell reading and configparser are libraries (oracle tables / tokenised input). Known finding F15 (dust acquisition with crypto fee rejected).",
+        "technique": "Coq proof of a parse-after-render round trip over a faithful parser model + translated source constants + differential correspondence against an independent oracle", "design_ref": "6 C11"},
+    "C12": {
+        "text": "Proved in the Coq model that every fault class of the property text is rejected at every position: constructors (14 types x IN/OUT exact tables, transfers always MOVE, non-positive amounts with the STAKING exception, zero/negative spot where required, both fee kinds, received > sent, fee without spot); one bad cell in any field of any table row (unknown asset/exchange/holder, timestamp without zone, unknown type, non-numeric, empty mandatory); asset differs from sheet; the table state machine (nested table, blank row inside a table, TABLE END or data outside a table, repeated table step); a faulty row after ANY accepted prefix and before ANYTHING makes parse_sheet fail, also spelled out on rendered sheets; missing TABLE END; missing or empty IN table; unknown asset; header line faults at any line position, section faults at any section position, missing mandatory section/field; option conflicts (-m plus [accounting_methods], unsupported method, from > to, unknown -a, unknown method in config); any front-end rejection of any asset after any accepted ones => exit != 0 and no report, whatever later stages do. A repeated table is rejected provided the earlier table of that type has data rows; refuted otherwise (F11).",
+        "note": "Fault stream on real files: every class at every row/field/table/section position of small valid inputs; the implementation must raise, the model must return Err, and the five console scripts on a sample per class (rp2_us always) plus all option faults must give exit != 0, an error message, and no .ods in the output directory. Fault-free bases are checked to run to completion under all five scripts. configparser/json/jsonschema/argparse rejections are library behaviour (counted separately). Known finding F11.",
+        "technique": "Coq case lemmas per fault class with universal position quantification (prefix/suffix lemmas on the state machine) + exhaustive single-fault injection against the implementation (in-process and CLI)", "design_ref": "6 C12"},
     "C20": {
         "text": "Proved on the Coq model of tax_report_jp.py (operations = template cells + insert_rows + _fill_cell; row arithmetic, columns, every fixed formula text, template geometry and the structural flags re-read from the source on each run): one sheet per (asset, local year with a visible transaction) in ascending order with distinct names; each row-bearing transaction of the year on exactly one row 21+k with its cells as final content; all writes and insertions within capacity; one summary sheet per year, line j at row 7+j pointing at that asset-year's own result cells; opening-balance cells reference the closing cells of the greatest earlier year that has a sheet, literal 0 if none; the behaviour before the fix (F5) is refuted by two vm_compute witnesses for the unrepaired flags. Corresponded: every generated tax_report_jp.ods (fresh interpreter per report, en and kl) is compared cell by cell, static cells included, with the extracted model, and judged by an independent oracle that dereferences every cross-sheet formula.",
         "note": "That the file on disk contains these cells is only as strong as the correspondence. ezodf (copy, insert_rows, set_value), float(Decimal) and the yen float formatting are library behaviour rendered by the harness. Legend sheet and styles are not covered. Names-distinct needs years 1..9999 and distinct asset names. Yen values are amount x spot (the writer ignores supplied fiat columns). -f together with -t is excluded (F7, see C16). A dust transfer fee crashes the generator (finding F14, KNOWN_FINDINGS.txt).",
